@@ -232,10 +232,13 @@ CLAIMED = {
         text='SourceCopier._copy_file_multi_part_main: a file is copied whole once or in ceil(size/part_size) announced parts, and for EVERY part index i the part starts at i*part_size and ends at min((i+1)*part_size, size), non-empty (tiling of [0,size), nonlinear VCs by z3). '
         '_copy_part (loop invariant): destination part stream created at part_number*part_size, every chunk read at exactly the destination position and written unchanged, exactly this_part_size bytes unless an error is reported; _copy_file (loop invariant): returns only at end of file with every byte written in order. '
         'Local destination: LocalAsyncFS.create truncates, multi_part_create leaves an empty file whatever was there and hands path/part count on, create_part opens without truncating and seeks to start; RouterAsyncFS forwards unchanged; every copy_part_size is a positive constant. '
-        'Destination rules and documented errors: Transfer.__init__, Copier._dest_type, SourceCopier._full_dest, copy_as_file, the checks of copy_as_dir and the missing-source rule of copy against the decision table of the property text.',
+        'Destination rules and documented errors: Transfer.__init__, Copier._dest_type, SourceCopier._full_dest, copy_as_file, the checks of copy_as_dir and the missing-source rule of copy against the decision table of the property text. '
+        'Locations (string contracts): LocalAsyncFS._get_path - a plain path names itself whatever characters it contains, file://[localhost] loses exactly that prefix - and every LocalAsyncFS operation resolves its location through it; url_join / url_basename treat a scheme-less location as a path (genuine defect fixed in /repo 107e6cea0). '
+        'Directory copies: listed prefix = source + "/", recursive listing, create_copies (one attempt under retry_transient_errors) walks only a listing nobody started to consume, yields one copy_source thunk per listed entry in order and leaves no started listing behind on any exceptional exit; copy_source copies src+REL to url_join(full_dest, REL) exactly once; the tail runs every thunk.',
         note=COMMON_NOTE + 'Byte contents are abstract: positions, lengths and chunk identity are tracked. Assumed: stream read/write contracts (C23 decides the ranged reads), bounded_gather2 runs every thunk once (C20), builtin open() mode semantics, the barrier rely between the two halves of a source. '
-        'Not covered: relative paths below a copied directory (string slicing), report aggregation, lists of transfers, cloud multi-part uploads. Thorough tier adds a BOUNDED native cross-check of the real Copier on temporary files (never counted as proved).',
-        technique='function and loop-invariant contracts on the real coroutines (with-protocol, forked I/O outcomes, one symbolic part index for the gather), pyvc -> z3; native scenarios as witness search',
+        'Also assumed: urlparse splits a scheme-less url into path + (; ? # rest); a recursive listing hands out every file below src once, named src + relative path; retry_transient_errors re-calls only after a raise (C21). '
+        'Not covered: the directory walk itself (async generator over os.scandir), file:// locations containing ; ? # (observation recorded), report aggregation, lists of transfers, cloud multi-part uploads. Thorough tier adds a BOUNDED native cross-check of the real Copier on temporary files (never counted as proved).',
+        technique='function and loop-invariant contracts on the real coroutines (with-protocol, forked I/O outcomes, one symbolic part index for the gather, numbered listings with a consumed-set ghost for the retried attempt, z3 sequence terms for paths), pyvc -> z3; native scenarios as witness search',
         design_ref='7/C22',
     ),
     'C26': dict(
